@@ -53,7 +53,7 @@ EXHAUSTIVE = {"quick": False, "thorough": False}
 COMPRESSION = [None, 0, 1, 2, 3, 4, 5, 6, 7, 8, 9]
 CORE_PLACEMENTS = ["attr", "list1", "tuple1", "dict", "set1"]
 HISTORY_VARIANTS = ["scalars", "arrays", "mixed"]
-RESTRUCTURE_MODES = ["load_each", "load_each_print_file", "control_no_intermediate_load"]
+RESTRUCTURE_MODES = ["load_each", "load_each_print_file", "control_no_intermediate_load", "load_each_neutral_calls"]
 AFTER_ERROR_WHERE = ["attr_of_child", "in_list", "in_dict_in_list", "deep_mixed", "in_object_in_list", "in_set_member_tuple"]
 NAME_CARRIERS = ["scalar", "path", "array", "tensor", "list", "numlist", "object", "dictkey"]
 
@@ -93,6 +93,8 @@ def plan(tier, seed):
             j += 1
             if tier == "quick" and p not in CORE_PLACEMENTS and (j + seed) % 4:
                 continue
+            if tier == "quick" and ":layout:" in k and p not in ("attr", "list1", "dict"):
+                continue  # layouts: attribute / list item / dict value on quick, every placement on thorough
             specs.append({"kind": "matrix", "vkind": k, "placement": p})
     for nm in serkinds.NASTY_NAMES:
         for c in NAME_CARRIERS:
@@ -151,7 +153,8 @@ def _target(base, store, pathkind, name):
     return Path(p) if pathkind == "Path" else p
 
 
-CTX_MODES = ["none", "save_no_grad", "load_no_grad", "both_no_grad", "save_inference", "load_inference", "both_inference", "grad_disabled", "default_float64"]
+CTX_MODES = ["none", "save_no_grad", "load_no_grad", "both_no_grad", "save_inference", "load_inference", "both_inference", "grad_disabled", "default_float64",
+             "np_errstate_raise", "np_printoptions", "deterministic_algorithms", "num_threads_3"]
 
 
 class _ProcessState:
@@ -172,6 +175,22 @@ class _ProcessState:
         elif m == "grad_disabled":
             self.prev = torch.is_grad_enabled()
             torch.set_grad_enabled(False)
+        elif m == "np_errstate_raise":
+            import numpy as np
+
+            self.cm = np.errstate(all="raise")
+            self.cm.__enter__()
+        elif m == "np_printoptions":
+            import numpy as np
+
+            self.cm = np.printoptions(precision=1, threshold=3, suppress=True)
+            self.cm.__enter__()
+        elif m == "deterministic_algorithms":
+            self.prev = torch.are_deterministic_algorithms_enabled()
+            torch.use_deterministic_algorithms(True)
+        elif m == "num_threads_3":
+            self.prev = torch.get_num_threads()
+            torch.set_num_threads(3)
         elif m.endswith("no_grad") and (m.startswith("both") or m.startswith(self.side)):
             self.cm = torch.no_grad()
             self.cm.__enter__()
@@ -189,6 +208,10 @@ class _ProcessState:
             torch.set_default_dtype(self.prev)
         elif self.mode == "grad_disabled":
             torch.set_grad_enabled(self.prev)
+        elif self.mode == "deterministic_algorithms":
+            torch.use_deterministic_algorithms(self.prev)
+        elif self.mode == "num_threads_3":
+            torch.set_num_threads(self.prev)
         return False
 
 
@@ -272,6 +295,13 @@ def _suite(ctx, idx, g, cfg, fields):
                     # which the next save stores as one int64 array -> {-5, 1, 7}); everything else stays strict
                     _judge(ctx, loaded[st2], r2, "loaded", "fixed_point_differs", f, "second generation vs first [%s]" % st2, relax=("numseq",))
                     _judge(ctx, g, r2, "roundtrip", "roundtrip_differs", dict(f, generation=2), "second generation vs g [%s]" % st2)
+                    if idx % 5 == 0:
+                        # outputs fed back once more: the third generation equals the second
+                        p3 = _target(base, st2, pk, "gen3_" + st2)
+                        if _save(ctx, r2, p3, st2, "w", comp, f, "save_gen3"):
+                            ok3, r3 = _load(ctx, p3, f, "load_gen3")
+                            if ok3:
+                                _judge(ctx, r2, r3, "loaded", "fixed_point_differs", dict(f, generation=3), "third generation vs second [%s]" % st2, relax=("numseq",))
     finally:
         shutil.rmtree(base, ignore_errors=True)
     return loaded
@@ -516,6 +546,21 @@ def _run_restructure(spec, idx, ctx):
             last = step == len(order) - 1
             if mode == "control_no_intermediate_load" and not last:
                 continue
+            if mode == "load_each_neutral_calls":
+                # calls that are neutral on the unchanged tree: they must not change what the next load / save does
+                import copy
+
+                from quantem.core.io import print_file
+
+                with contextlib.redirect_stdout(io.StringIO()):
+                    print_file(p, depth=2)
+                    g.print_tree(depth=2)
+                    repr(g)
+                    _twin = copy.deepcopy(g)
+                    side = os.path.join(base, "side.zip" if step % 2 else "side")
+                    g.save(side, mode="o", store="zip" if step % 2 else "dir")
+                    ctx.state["load"](side)
+                    ctx.state["load"](p)
             if mode == "load_each_print_file":
                 try:
                     from quantem.core.io import print_file
